@@ -72,8 +72,8 @@ CFG = {
     "thorough": {
         "flat_alphabet": ALPHA_F + ALPHA_I, "flat_len": 5, "flat_extra_float_len": 6, "wrap_len": 5,
         "shape_bounds": {"members": 3, "polygons": 3, "rings": 2, "points": 4, "nonuniform": True},
-        "levels": [(8, 3, 2), (16, 2, 2), (10 ** 9, 2, 1)],
-        # single substitutions also use int leaves; 2nd/3rd substitutions floats only
+        "levels": [(6, 3, 2), (12, 2, 2), (32, 2, 1), (10 ** 9, 1, 1)],
+        # a structure with exactly one substituted leaf also uses int leaves; with two or three, floats only
         "sub_alphabet": ALPHA_F + ALPHA_I, "sub_alphabet_deep": ALPHA_F,
         "tag_pool_flat_len": 3, "blocks": {"flat": 40, "wrap": 8, "nested": 76, "tags": 4},
     },
@@ -89,12 +89,19 @@ def bounds(tier):
                  "extra_float_only_length": cfg["flat_extra_float_len"] or None},
         "wrong_nesting": {"flat_list_length": [0, cfg["wrap_len"]], "variants": "whole list wrapped; each single element wrapped"},
         "nested_base_shapes": dict(cfg["shape_bounds"], count=len(shapes),
+                                   shape_set=("depth 2: 0..points points; depth 3: 1..members members; depth 4: 1..polygons polygons x 1..rings rings; "
+                                              + ("members of depth 3 and rings of a single polygon sized independently, 2-3 polygons uniform"
+                                                 if cfg["shape_bounds"]["nonuniform"] else "all members / rings of one shape the same size")),
                                    base_leaves="point i of a list = [T[i], F[i]], T=[0,1,2,3], F=[MAX,0,3,1]"),
         "deviation_levels": [{"shapes_with_leaves_up_to": a if a < 10 ** 9 else "any", "max_deviations": k,
                               "max_structural_ops": ks} for a, k, ks in cfg["levels"]],
         "deviation_kinds": ["leaf substitution (any leaf, any other alphabet value)", "insert leaf / [] / copy of neighbour at any position of any list",
                             "delete any element of any list", "wrap any node", "unwrap (splice) any list node", "reverse any list"],
-        "substitution_alphabet": {"first": cfg["sub_alphabet"], "further": cfg["sub_alphabet_deep"]},
+        "deviation_rules": "canonical form: structural ops first (applied in sequence, addressed by path), then leaf substitutions at "
+                           "strictly increasing leaf positions; two structural ops are never combined with leaf substitutions; "
+                           "inserted leaf = 1.0, inserted copy = the element before the insertion point",
+        "substitution_alphabet": {"structure_with_exactly_one_substituted_leaf": cfg["sub_alphabet"],
+                                  "structure_with_two_or_three": cfg["sub_alphabet_deep"]},
         "type_tags": list(TYPES), "entry_points": list(EP) + ["attributes(instance)", "json dump + validate"],
         "unknown_tags": UNKNOWN_TAGS, "tag_pool_size": len(tag_pool(tier)),
     }
@@ -216,18 +223,18 @@ def run_one(c, ctext, tag, case):
         out.vac("normal_form")
         out.vac("class_matches_tag")
         out.vac("json_roundtrip")
+    bad_n = [i for i, g in objs if exp and g.coordinates != norm]
+    bad_c = [i for i, g in objs if not (type(g) is klass and g.type == tag)]
     for i, g in objs:
         if exp:
-            okn = g.coordinates == norm
-            if not okn:
-                bad = True
-            out.expect("normal_form", okn, g.coordinates, norm, {"type": tag, "entry": EP[i], "input": shape_in}, detail)
+            out.expect("normal_form", i not in bad_n, g.coordinates, norm,
+                       {"type": tag, "entry": "all" if len(bad_n) == 4 else EP[i], "input": shape_in}, detail)
         else:
             out.vac("normal_form")
-        okc = type(g) is klass and g.type == tag
-        if not okc:
-            bad = True
-        out.expect("class_matches_tag", okc, [type(g).__name__, g.type], [tag, tag], {"type": tag, "entry": EP[i]}, detail)
+        out.expect("class_matches_tag", i not in bad_c, [type(g).__name__, g.type], [tag, tag],
+                   {"type": tag, "entry": "all" if len(bad_c) == 4 else EP[i]}, detail)
+    if bad_n or bad_c:
+        bad = True
 
     # json_roundtrip on every distinct accepted object
     done = []
@@ -245,7 +252,7 @@ def run_one(c, ctext, tag, case):
             same, obs = False, _label(e) + ": " + str(e)[:120]
         if not same:
             bad = True
-        out.expect("json_roundtrip", same, obs, repr(g), {"type": tag, "entry": EP[i], "input": shape_in}, detail)
+        out.expect("json_roundtrip", same, obs, repr(g), {"type": tag, "entry": "all" if acc == 4 and agree else EP[i], "input": shape_in}, detail)
 
     if bad:
         out.klass = tag + ":VIOLATION"
@@ -259,6 +266,7 @@ def run_one(c, ctext, tag, case):
 def eval_struct(c, how, rec):
     """Offer one structure under all nine type tags."""
     ctext = json.dumps(c)
+    rec.count("structures")
     for tag in TYPES:
         case = {"sp": "struct", "c": c, "tag": tag}
         if how is not None:
@@ -325,13 +333,12 @@ def base_shapes(tier):
         out += [[n] * m for m in range(1, M + 1) for n in range(N + 1)]  # depth 3
         out += [[[n] * r] * p for p in range(1, P + 1) for r in range(1, R + 1) for n in range(N + 1)]  # depth 4
         return out
-    # thorough: every member its own size (depth 3: all; depth 4: all up to 2 polygons, uniform for 3)
+    # thorough: depth 3 with every member its own size; depth 4: one polygon with every ring its own size,
+    # two and three polygons uniform
     for m in range(1, M + 1):
         out += [list(t) for t in itertools.product(range(N + 1), repeat=m)]
-    polys = [list(t) for r in range(1, R + 1) for t in itertools.product(range(N + 1), repeat=r)]
-    out += [[p] for p in polys]
-    out += [[p, q] for p in polys for q in polys]
-    out += [[[n] * r] * 3 for r in range(1, R + 1) for n in range(N + 1)]
+    out += [[list(t)] for r in range(1, R + 1) for t in itertools.product(range(N + 1), repeat=r)]
+    out += [[[n] * r] * p for p in range(2, P + 1) for r in range(1, R + 1) for n in range(N + 1)]
     return out
 
 
@@ -433,7 +440,7 @@ def leaf_first(s, paths, a, k, alpha, alpha_deep):
         op = ["s", p, v]
         s1 = _set(s, p, lambda _: v)
         yield [op], s1
-        if k > 1:
+        if k > 1 and any(v == d and type(v) is type(d) for d in alpha_deep):
             for b in range(a + 1, len(paths)):
                 for ops2, s2 in leaf_first(s1, paths, b, k - 1, alpha_deep, alpha_deep):
                     yield [op] + ops2, s2
@@ -468,9 +475,9 @@ def run_unit(tier, unit, rec):
     if k >= 2:
         paths = leaf_paths(s1)
         for b in range(len(paths)):
-            for ops, s2 in leaf_first(s1, paths, b, k - 1, alpha if k - 1 == 1 else deep, deep):
+            for ops, s2 in leaf_first(s1, paths, b, k - 1, alpha, deep):
                 eval_struct(s2, {"shape": shape, "ops": [op1] + ops}, rec)
-        if ks >= 2:
+        if ks >= 2:  # two structural deviations are never combined with leaf substitutions
             seen = {json.dumps(s1)}
             for op2 in struct_ops(s1):
                 s2 = apply_op(s1, op2)
@@ -479,11 +486,6 @@ def run_unit(tier, unit, rec):
                     continue
                 seen.add(t2)
                 eval_struct(s2, {"shape": shape, "ops": [op1, op2]}, rec)
-                if k >= 3:
-                    paths2 = leaf_paths(s2)
-                    for b in range(len(paths2)):
-                        for ops, s3 in leaf_first(s2, paths2, b, k - 2, deep, deep):
-                            eval_struct(s3, {"shape": shape, "ops": [op1, op2] + ops}, rec)
 
 
 # ------------------------------------------------------------------ type-tag space
